@@ -32,6 +32,10 @@ pub struct Profile {
     /// Pratt operator tokens come from the ordinary token pool (conflicts possible; C10)
     pub pratt_shared_ops: bool,
     pub choice_weight: u32,
+    /// leave some rules unreachable (unused-rule warnings) instead of attaching them
+    pub unreachable_rules: bool,
+    /// sometimes write a lone node operator / action in parentheses: `( #1 )`
+    pub paren_deco: bool,
 }
 
 impl Profile {
@@ -59,10 +63,17 @@ impl Profile {
             repair: true,
             pratt_shared_ops: false,
             choice_weight: 2,
+            unreachable_rules: false,
+            paren_deco: false,
         }
     }
     pub fn ebnf() -> Profile {
         Profile { parts: true, skips: true, ..Profile::base("ebnf") }
+    }
+    /// everything the grammar language has, including shapes that only matter to the front
+    /// end: unreachable rules, parenthesised node operators, start-rule renames
+    pub fn text() -> Profile {
+        Profile { c11_shapes: true, unreachable_rules: true, paren_deco: true, name: "text", ..Profile::full() }
     }
     pub fn full() -> Profile {
         Profile {
@@ -183,6 +194,11 @@ impl<'p, 'd> Builder<'p, 'd> {
                     }
                     items.push(tail);
                     alts.push(Regex::Concat(items));
+                }
+                // sometimes the last alternative can match nothing
+                if self.d.chance(1, 4) {
+                    let last = alts.pop().unwrap();
+                    alts.push(Regex::Opt(Box::new(last)));
                 }
                 Regex::Choice(alts)
             }
@@ -531,7 +547,11 @@ impl Deco<'_, '_, '_> {
             }
             if p.asserts && self.b.d.chance(1, 14) {
                 let n = 1 + self.b.d.below(2) as u32;
-                out.push(Regex::Assert(n));
+                if p.paren_deco && self.b.d.chance(1, 4) {
+                    out.push(Regex::Paren(Some(Box::new(Regex::Assert(n)))));
+                } else {
+                    out.push(Regex::Assert(n));
+                }
             }
             let skip_first_of_left_rec = left_rec_branch && i == 0;
             let inside_pair = pair.as_ref().is_some_and(|(a, z, _, _)| *a <= i && i < *z);
@@ -550,7 +570,11 @@ impl Deco<'_, '_, '_> {
             }
             if p.actions && !active && self.b.d.chance(1, 10) {
                 let n = 1 + self.b.d.below(2) as u32;
-                out.push(Regex::Action(n));
+                if p.paren_deco && self.b.d.chance(1, 4) {
+                    out.push(Regex::Paren(Some(Box::new(Regex::Action(n)))));
+                } else {
+                    out.push(Regex::Action(n));
+                }
             }
             if p.choice && active && self.b.d.chance(1, 8) {
                 out.push(Regex::Commit);
@@ -563,7 +587,11 @@ impl Deco<'_, '_, '_> {
         if p.nodeops {
             if (!self.is_start || p.c11_shapes) && self.b.d.chance(1, 7) {
                 let name = self.node_name();
-                out.push(Regex::Rename(name));
+                if p.paren_deco && self.b.d.chance(1, 4) {
+                    out.push(Regex::Paren(Some(Box::new(Regex::Rename(name)))));
+                } else {
+                    out.push(Regex::Rename(name));
+                }
             }
             if self.allow_elide && !left_rec_branch && self.b.d.chance(1, 8) {
                 out.push(Regex::Elide);
@@ -702,9 +730,14 @@ pub fn build(p: &Profile, data: &[u32]) -> Grammar {
         });
     }
     // reachability: unreferenced rules become parts, get attached, or are dropped
+    let mut left_unreachable: Vec<usize> = vec![];
     loop {
         let reach = refan::reachable_rules(&b.g, true);
-        let Some(u) = reach.iter().position(|r| !*r) else { break };
+        let Some(u) = reach.iter().enumerate().position(|(i, r)| !*r && !left_unreachable.contains(&i)) else { break };
+        if p.unreachable_rules && b.d.chance(1, 3) {
+            left_unreachable.push(u);
+            continue;
+        }
         let how = b.d.below(3);
         if how == 1 && p.parts {
             b.g.parts.push(u);
